@@ -183,6 +183,20 @@ Example C07_wmc_example :
   Qeq_bool (wmc (rm s) (hnd s 5)) (27#50) = true.
 Proof. vm_compute. repeat split; reflexivity. Qed.
 
+(* boundary weights are inside C07_gradient_indep_partial: its hypotheses only ask the OTHER variables to be
+   normalised in the two re-weighted managers, so an Independent variable registered with probability exactly 1
+   (pos = 1, neg = 0) or 0 is covered.  Here x0 has probability 1, f = (x0 & x1) | ~x2 with p1 = 10/16, p2 = 1/2:
+   the hypotheses hold and the gradient in x0 is P(x1 | ~x2) - P(~x2) = 5/16 (not 0). *)
+Example C07_gradient_boundary_example :
+  let ops := [OVar 0 1 0 Indep; OVar 1 (10#16) (6#16) Indep; OVar 2 (1#2) (1#2) Indep;
+              OLit 0 true None; OLit 1 true None; OLit 2 false None;
+              OApply 0 1 And None; OApply 3 2 Or None]%N in
+  let s := fst (run_from 100 rinit ops) in
+  kind_of (rm s) 0 = Indep /\
+  normalised [0; 1; 2]%N (set_weights 0 1 0 (rm s)) = true /\ normalised [0; 1; 2]%N (set_weights 0 0 1 (rm s)) = true /\
+  Qeq_bool (grad_var (rm s) (hnd s 4) 0) (5#16) = true.
+Proof. vm_compute. repeat split; reflexivity. Qed.
+
 (* a history with three variables introduced in the order 2,0,1; (x0&x1)|(x0&x2) is built, then the
    same disjunction is requested with the deadline expiring at the 5th checkpoint (DeadlineExceeded,
    code 1), with a node budget of 9 (NodeBudgetExceeded, code 2: nine nodes exist already and the
